@@ -54,6 +54,7 @@ LIB_INVALID_STATE = 1
 LIB_RETURNED_EXC = 2        # an Exception instance came back as a *return value*
 LIB_RETURNED_OTHER = 3      # a non-int came back as a return value
 LIB_TIMEOUT = 4
+LIB_FOREIGN = 5             # a harness exception that is NOT the instance the batch function raised / yielded (a copy)
 LIB_OTHER = 9
 
 
@@ -68,6 +69,15 @@ class HExc(Exception):
 class HKeyExc(HExc, KeyError):
     """The same, but also a KeyError (a failed lookup inside the user's batch function): the
     library must not confuse it with the KeyError of its own ``futs.pop(key)``."""
+
+
+class HArgExc(HExc):
+    """The same, with a constructor whose signature differs from ``.args`` (as many real exception
+    classes have): ``type(e)(*e.args)`` fails, so the library must hand on the instance itself."""
+
+    def __init__(self, kind, e, origin):
+        super().__init__(kind, e)
+        self.origin = origin
 
 
 _CUR = [None]          # the running _Run (one per process at a time)
@@ -131,8 +141,11 @@ def key_id(s):
     return EMPTY_KEY if s == '' else int(s)
 
 
-def classify_exc(e):
+def classify_exc(e, issued=None):
     if isinstance(e, HExc):
+        # by identity first: the caller must receive THE object the batch function raised / yielded
+        if issued is not None and not any(e is x for x in issued):
+            return ['lib', LIB_FOREIGN]
         return ['yexc', e.e] if e.kind == 'y' else ['rexc', e.e]
     if isinstance(e, KeyError):
         return ['proto']
@@ -155,6 +168,7 @@ class _Run:
         self.ncid = 0          # caller ids handed out (one per call made)
         self.inflight = {}     # cid -> task currently awaiting that call
         self.first_cids = {}   # index of a 'burstc' event -> caller id of its first task
+        self.issued = []       # every exception instance the batch function raised / yielded (kept alive)
         self.batcher = None
         self.call = None
 
@@ -176,9 +190,15 @@ class _Run:
             cmd = await fut
             if cmd[0] == 'yield':
                 x = cmd[3]
-                yield (key_str(cmd[1]), x if cmd[2] == 'v' else HExc('y', x))
+                if cmd[2] != 'v':
+                    x = HExc('y', x)
+                    self.issued.append(x)
+                yield (key_str(cmd[1]), x)
             elif cmd[0] == 'raise':
-                raise (HKeyExc if cmd[1] % 2 else HExc)('r', cmd[1])
+                n = cmd[1]
+                exc = (HArgExc('r', n, bid) if n % 4 == 2 else HKeyExc('r', n) if n % 2 else HExc('r', n))
+                self.issued.append(exc)
+                raise exc
             else:
                 return
 
@@ -196,7 +216,7 @@ class _Run:
         except asyncio.CancelledError:
             return ['cancelled']
         except BaseException as e:     # noqa
-            return classify_exc(e)
+            return classify_exc(e, self.issued)
 
     async def caller(self, cid, arg, key, more=0):
         """One task: more+1 sequential calls; a cancelled task stops calling."""
